@@ -12,7 +12,8 @@ PROP = "C09"
 LEVEL = "exploration"
 RULE = ("grid of same-time (weak) loops: 2-4 simulators in a group at nesting tier 1 or 2, exactly one weak edge "
         "per cycle, loop budget L in {max-2..max+2}, max_loop_iterations in {1,2,3,5,10,100}, loops at several "
-        "integer times, 8 schedules each (fifo, lifo, starve each member, prefer step/get, picks), plus "
+        "integer times, 8 schedules each (fifo, lifo, starve each member, prefer step/get, picks), loops at two tiers "
+        "through the same simulators (two inner loops in sub-groups, one outer loop in the enclosing group), plus "
         "Hypothesis-generated loops embedded in larger scenarios; differential oracle: the same case with the "
         "guard far away (max_loop_iterations=10^6) tells how many sub-steps each simulator needs per time step; "
         "if some simulator needs more than max: run() must raise SimulationError naming a simulator of the loop and "
@@ -53,6 +54,19 @@ def loop_scenario(n, tier, budget, maxit, until=3, selfstep=True, future=False):
     tree = tree + ["Z"]
     return {"tree": tree, "sims": sims, "conns": conns, "initial_events": {names[0]: 0}, "until": until,
             "world": {"cache": True, "max_loop_iterations": maxit}, "run": {"lazy_stepping": True}}
+
+
+def nested_loops(ba, bb, bc, bd, maxit, until=2):
+    """two inner same-time loops A<->B and C<->D in sub-groups of one group, and an outer same-time loop
+    A -> C -weak-> A at the tier of the enclosing group whose members all sit in inner loops, too"""
+    sims = [_sim("A", "event-based", steps=[1], emit=[1], budget=ba), _sim("B", "event-based", steps=[0], emit=[1], budget=bb),
+            _sim("C", "event-based", steps=[0], emit=[1], budget=bc), _sim("D", "event-based", steps=[0], emit=[1], budget=bd),
+            _sim("Z", "time-based", steps=[1])]
+    conns = [_c("A", "eo", "B", "ti"), _c("B", "eo", "A", "ti", weak=True), _c("C", "eo", "D", "ti"),
+             _c("D", "eo", "C", "ti", weak=True), _c("A", "eo", "C", "ti"), _c("C", "eo", "A", "ti", weak=True),
+             _c("A", "eo", "Z", "mi")]
+    return {"tree": [[["A", "B"], ["C", "D"]], "Z"], "sims": sims, "conns": conns, "initial_events": {"A": 0},
+            "until": until, "world": {"cache": True, "max_loop_iterations": maxit}, "run": {"lazy_stepping": True}}
 
 
 def substeps(res):
@@ -170,6 +184,19 @@ def shard(prop, tier, seed, shard, nshards):
             for f in check_case(case, acc):
                 if len(acc.failures) < 20:
                     acc.failures.append(f)
+
+    # loops at two tiers through the same simulators (inner loops in sub-groups, outer loop in the enclosing group)
+    for maxit in (4, 5, 8):
+        for k in range(maxit - 2, maxit + 3):
+            for shape in ((k, 1, k, 1), (k, 2, k, 2), (k, k, k, k), (1, k, 1, k)):
+                for sched in SCHEDULES[:4]:
+                    i += 1
+                    if i % nshards != shard or acc.out_of_time():
+                        continue
+                    case = {"scenario": nested_loops(*shape, maxit), "schedule": sched}
+                    for f in check_case(case, acc):
+                        if len(acc.failures) < 20:
+                            acc.failures.append(f)
 
     # generated scenarios with weak loops inside larger scenarios and small guards
     from hypothesis import strategies as st
